@@ -534,4 +534,82 @@ theorem reduceCells_permute_input {f : String} {v v' w : List Dim} {sw perm : Li
   rw [← genCells_map]
   exact genCells_congr (fun σ hσ => redX_permute_input hperm hv' hc hcons hms hplan hσ)
 
+/-! ### the same, semantically: any interpretation with permutation-invariant reductions -/
+
+/-- The interpretation of every reduction symbol `red:g` is invariant under permutations of its arguments. -/
+def RedInvariant {α : Type} (A : Alg α) : Prop :=
+  ∀ (g : String) (xs ys : List α), xs ~ ys → A.app ("red:" ++ g) xs = A.app ("red:" ++ g) ys
+
+theorem evalHom {α : Type} (A : Alg α) (xs : List (Tensor α)) : Hom symAlg A (evalCell A xs) where
+  lit := fun i => by simp [symAlg, evalCell]
+  app := fun f args => by simp [symAlg, evalCell, evalCells_eq_map]
+  bad := by simp [symAlg, evalCell]
+
+/-- Evaluating a substituted cell = evaluating the cell over the evaluated tensors. -/
+theorem eval_subst {α : Type} (A : Alg α) (xs : List (Tensor α)) (ts : List (Tensor Cell)) (c : Cell) :
+    evalCell A xs (subst ts c) = evalCell A (ts.map (Tensor.map (evalCell A xs))) c :=
+  (evalCell_map (evalHom A xs) ts c).symm
+
+theorem eval_mkRed_perm {α : Type} {A : Alg α} (hA : RedInvariant A) (f : String) (xs ys : List (Tensor α))
+    {r' r : List Cell} (hp : r'.map (evalCell A xs) ~ r.map (evalCell A ys)) :
+    evalCell A xs (mkRed f r') = evalCell A ys (mkRed f r) := by
+  match r', hp with
+  | [], hp =>
+    have : r = [] := by simpa using hp.symm.eq_nil
+    subst this; simp [mkRed, evalCell, evalCells, sortCells]
+  | [c'], hp =>
+    have hl := hp.length_eq
+    match r, hp, hl with
+    | [c], hp, _ =>
+      have := List.perm_singleton.mp hp.symm
+      simpa [mkRed] using this.symm
+  | a :: b :: t, hp =>
+    have hlen := hp.length_eq
+    match r, hp, hlen with
+    | x :: y :: t', hp, _ =>
+      simp only [mkRed, evalCell, evalCells_eq_map]
+      apply hA
+      exact (((sortCells_perm_self (a :: b :: t)).map _).trans hp).trans ((sortCells_perm_self (x :: y :: t')).map _).symm
+
+/-- **Input permutation law of reductions, semantically.**  For every element algebra whose reduction symbols are
+permutation invariant and every concrete input tensor `x`: the permuted operation evaluated on the transposed tensor
+(`runPlan A [x] plan`, `plan` the IR's transpose plan) gives the same values as the original operation on `x`. -/
+theorem reduceCells_permute_input_sem {α : Type} {A : Alg α} (hA : RedInvariant A) (x : Tensor α)
+    {f : String} {v v' w : List Dim} {sw perm : List Nat} {plan : Plan}
+    (hperm : isPermOf perm v.length = true) (hv' : permuteL perm v = some v')
+    (hc : Dim.concatFreeL v = true) (hcons : Consistent (Dim.leavesL v ++ Dim.leavesL w))
+    (hms : MarkSep (Dim.leavesL v)) (hplan : planInstr [viewShape v] (.transpose 0 perm) = .ok plan) :
+    (reduceCells f v' (viewShape v') w sw).map (List.map (evalCell A [runPlan A [x] plan]))
+      = (reduceCells f v (viewShape v) w sw).map (List.map (evalCell A [x])) := by
+  have hsyn := reduceCells_permute_input (f := f) (sw := sw) hperm hv' hc hcons hms hplan
+  have hreg : [runPlan A [x] plan] = [(⟨plan.shape, plan.cells⟩ : Tensor Cell)].map (Tensor.map (evalCell A [x])) := by
+    simp [runPlan, Tensor.map, evalCells_eq_map]
+  cases hcs' : reduceCells f v' (viewShape v') w sw with
+  | none => rw [hcs'] at hsyn; rw [← hsyn]; rfl
+  | some cs' =>
+    rw [hcs'] at hsyn
+    rw [← hsyn]
+    simp only [Option.map_some, Option.some.injEq, List.map_map]
+    apply List.map_congr_left
+    intro c' hc'
+    obtain ⟨k, hk, hget⟩ := List.getElem_of_mem hc'
+    obtain ⟨_, hlen, hall⟩ := genCells_spec hcs'
+    obtain ⟨σ, hσ, _, hX⟩ := hall k (by rw [← hlen]; exact hk)
+    rw [List.getElem?_eq_getElem hk, hget] at hX
+    unfold redX at hX
+    rcases redArgs_permute_input hperm hv' hc hcons hms hplan hσ with ⟨e1, _⟩ | ⟨r', r, e1, e2, hp⟩
+    · rw [e1] at hX; simp at hX
+    · rw [e1] at hX
+      simp only [Option.map_some, Option.some.injEq] at hX
+      subst hX
+      simp only [Function.comp]
+      rw [resort_subst_mkRed _ f hp (redArgs_src e2)]
+      apply eval_mkRed_perm hA
+      have := hp.map (evalCell A [x])
+      rw [List.map_map] at this
+      have hfun : (evalCell A [x] ∘ subst [⟨plan.shape, plan.cells⟩]) = evalCell A [runPlan A [x] plan] := by
+        funext c; simp only [Function.comp, eval_subst, hreg]
+      rw [hfun] at this
+      exact this
+
 end Einx.Denote
